@@ -92,6 +92,11 @@ func H16Text() {
 		t.Span(span, v, opts...)
 		cells = append(cells, cell{marker, row, col, span, right, center, n})
 	}
+	addFixed := func(marker byte, row, col int) {
+		t.Col(col)
+		t.Span(1, string([]byte{marker}))
+		cells = append(cells, cell{marker, row, col, 1, false, false, 1})
+	}
 	switch shape {
 	case 0: // header spanning both columns
 		t.Row()
@@ -118,6 +123,19 @@ func H16Text() {
 		cells = append(cells, cell{}) // placeholder keeps indices simple
 		cells = cells[:len(cells)-1]
 		add('E', 2, 2, 1, true, false)
+	case 2: // a rule column: an empty cell that carries a margin, with another cell to its right
+		t.Row()
+		add('A', 0, 0, 1, false, false)
+		t.Cell("", LeftMargin(" | "))
+		add('B', 0, 2, 1, false, false)
+		t.Row()
+		addFixed('C', 1, 0)
+		addFixed('M', 1, 1)
+		add('D', 1, 2, 1, false, false)
+		t.Row()
+		addFixed('E', 2, 0)
+		t.Cell("", LeftMargin(" | "))
+		add('F', 2, 2, 1, false, false)
 	}
 	var buf bytes.Buffer
 	if err := t.Format(&buf); err != nil {
